@@ -29,6 +29,8 @@ def run_totality(ctx, rule, modules, targets, axioms=None, depth=5, cap=64, ctor
                  record_raises=False):
     """analyse entry points; one obligation per distinct sink; finding per unproved sink.
     targets: [(class, [methods])]; ctors: classes whose __init__ is analysed with free parameters."""
+    if ctx.tier == 'thorough':
+        depth, cap = depth + 4, cap * 8          # deeper inlining, later joins: more path sensitivity
     prog = Program(ctx.prog, set(modules))
     an = Analyser(prog, axioms=axioms or {}, max_depth=depth, cap=cap, record_raises=record_raises)
     an.expr_axioms = {k: v[0] for k, v in (expr_axioms or {}).items()}
